@@ -154,3 +154,49 @@ func H_C19_Aggregation(v *sym.V) {
 		}
 	}
 }
+
+// H_C19_Long: de-duplication over long chains. n hint-bearing layers (plain
+// hints and standard issue-link hints) with pairwise distinct texts, except two
+// symbolic ones: one at an arbitrary position, one outermost. Both may coincide
+// with any other hint of the chain or with each other.
+func H_C19_Long(v *sym.V) {
+	n := v.Param("n", 10)
+	pos := v.Choice("pos", n-1)
+	var e error = errors.New("leaf")
+	var hints []string
+	for i := 0; i < n; i++ {
+		var h string
+		switch {
+		case i == pos:
+			h = v.Str("inner", sym.LOWER, 0, 1)
+		case i == n-1:
+			h = v.Str("outer", sym.LOWER, 0, 1)
+		default:
+			h = string(rune('a' + i))
+		}
+		if i%4 == 3 && i != pos && i != n-1 {
+			e = errors.WithIssueLink(e, errors.IssueLink{IssueURL: h})
+			h = "See: " + h
+		} else {
+			e = errors.WithHint(e, h)
+		}
+		hints = append(hints, h)
+	}
+	var want []string
+	for _, h := range hints {
+		if h == "" {
+			continue
+		}
+		dup := false
+		for _, w := range want {
+			if w == h {
+				dup = true
+			}
+		}
+		if !dup {
+			want = append(want, h)
+		}
+	}
+	eqList(v, "long-hints", errors.GetAllHints(e), want)
+	v.Assert("long-flatten-hints", errors.FlattenHints(e) == joinSep(want, "\n--\n"))
+}
